@@ -478,6 +478,9 @@ fn run_requests(c: &ReqCase, ctx: &RunCtx, o: &mut Outcome) {
             if let Some(e) = &out.error {
                 let key: String = e.chars().filter(|c| !c.is_ascii_digit()).take(34).collect();
                 o.count(&format!("zerr:{}:{}", r.kind, key.replace('\n', " ")), 1);
+                if e.contains(" --> ") {
+                    eprintln!("GRAMMAR-ERR {} || {}", r.text.replace('\n', " "), e.replace('\n', " ").chars().take(160).collect::<String>());
+                }
             }
         }
         let n = panics_to_violations(o, stage, &detail);
@@ -920,9 +923,159 @@ impl Property for C14 {
     }
 }
 
+/// writes the seed corpus of the fuzz target `wire_decode`: one valid value per wire type
+/// (first byte = type number, see shared::wire::decode_and_check)
+fn write_wire_seeds(dir: &str) {
+    use discret::verif as dvv;
+    use dvv::database::edge::{Edge, EdgeDeletionEntry};
+    use dvv::database::node::{Node, NodeDeletionEntry};
+    use dvv::database::system_entities::Invite;
+    use dvv::synchronisation::{Answer, Query, QueryProtocol, RemoteEvent};
+    std::fs::create_dir_all(dir).unwrap();
+    let key = shared::signing_key("seed");
+    let mut n = 0;
+    let mut put = |kind: u8, bytes: Vec<u8>| {
+        let mut v = vec![kind];
+        v.extend(bytes);
+        std::fs::write(format!("{}/seed_{:02}_{:02}", dir, kind, n), v).unwrap();
+        n += 1;
+    };
+    let room = [3u8; 16];
+    let queries = vec![
+        Query::ProveIdentity(vec![1; 32]),
+        Query::HardwareFingerprint(),
+        Query::RoomList,
+        Query::RoomDefinition(room),
+        Query::RoomNode(room),
+        Query::RoomLog(room),
+        Query::RoomLogAt(room, dv::world::T0),
+        Query::EdgeDeletionLog(room, "1.0".into(), dv::world::T0),
+        Query::NodeDeletionLog(room, "1.0".into(), dv::world::T0),
+        Query::RoomDailyNodes(room, "1.0".into(), dv::world::T0),
+        Query::Nodes(room, vec![[1; 16], [2; 16]]),
+        Query::Edges(room, vec![([1; 16], 5)]),
+        Query::PeersForRoom(room),
+    ];
+    for (i, q) in queries.into_iter().enumerate() {
+        put(0, bincode::serialize(&QueryProtocol { id: i as u64, query: q }).unwrap());
+    }
+    put(1, bincode::serialize(&Answer { id: 1, success: true, complete: false, serialized: vec![1, 2, 3] }).unwrap());
+    put(2, bincode::serialize(&RemoteEvent::RoomDataChanged(room)).unwrap());
+    let mut node = Node { id: [1; 16], room_id: Some(room), cdate: 1, mdate: 2, _entity: "1.0".into(), _json: Some("{\"32\":\"x\"}".into()), ..Default::default() };
+    node.sign(&key).unwrap();
+    put(4, bincode::serialize(&node).unwrap());
+    put(10, bincode::serialize(&vec![node.clone(), node.clone()]).unwrap());
+    let mut peer = Node { id: [9; 16], room_id: None, cdate: 1, mdate: 2, _entity: "0.4".into(), _json: Some("{\"32\":\"AAAA\",\"33\":\"n\"}".into()), ..Default::default() };
+    peer.sign(&key).unwrap();
+    put(3, bincode::serialize(&dvv::synchronisation::IdentityAnswer { peer, chall_signature: vec![0; 64] }).unwrap());
+    let mut edge = Edge { src: [1; 16], src_entity: "1.0".into(), label: "35".into(), dest: [2; 16], cdate: 3, ..Default::default() };
+    edge.sign(&key).unwrap();
+    put(5, bincode::serialize(&edge).unwrap());
+    put(11, bincode::serialize(&vec![edge.clone()]).unwrap());
+    put(6, bincode::serialize(&NodeDeletionEntry::build(room, &node, 7, &key)).unwrap());
+    put(12, bincode::serialize(&vec![NodeDeletionEntry::build(room, &node, 7, &key)]).unwrap());
+    put(7, bincode::serialize(&EdgeDeletionEntry::build(room, &edge, 7, &key)).unwrap());
+    put(13, bincode::serialize(&vec![EdgeDeletionEntry::build(room, &edge, 7, &key)]).unwrap());
+    put(8, bincode::serialize(&Invite { invite_id: [4; 16], application: "app".into(), invite_sign: vec![0; 64] }).unwrap());
+    put(17, bincode::serialize(&dvv::network::ConnectionInfo { endpoint_id: [1; 16], remote_id: [2; 16], conn_id: [3; 16], meeting_token: [4; 7], peer_verifying_key: vec![1; 33] }).unwrap());
+    println!("{} seeds written to {}", n, dir);
+}
+
+/// writes the named minimal replay files of the findings (development helper: the files are
+/// committed, this is how they were made)
+fn write_replays(dir: &str) {
+    use inst::{BytesSpec, EntSel, QSpec, RoomSel, RowSpec, Step};
+    let art = |text: &str| Case::Artifact { target: "parse_texts".into(), hex: fuzzrun::hex(text.as_bytes()) };
+    let no_avoid = Avoid::default();
+    let json_model = ModelSpec {
+        nss: vec![NsSpec {
+            name: None,
+            ents: vec![EntSpec {
+                name: Ident { cat: 0, ix: 4000 },
+                no_fts: false,
+                fields: vec![FieldSpec { name: Ident { cat: 0, ix: 24000 }, ty: Ty::Json, modif: Modif::Nullable }],
+                index: None,
+            }],
+        }],
+        avoid: no_avoid,
+    };
+    let mut_json = |val: Val| {
+        Case::Requests(ReqCase {
+            model: json_model.clone(),
+            reqs: vec![Req::Mutate(MutReq {
+                name: None,
+                ents: vec![MutEnt { alias: None, ent: 0, id: IdSpec::None, complete: true, fields: vec![MutField { field: 0, val, sub: vec![], sub_id: IdSpec::None, count: 0 }] }],
+            })],
+            via_instance: false,
+        })
+    };
+    let q = |kind: u8, date: u8| Step::Query {
+        q: QSpec { kind, id: 1, room: RoomSel::Shared, ent: EntSel::Item, date, ids: vec![], many: 0, challenge: BytesSpec::Good },
+        flips: vec![],
+        truncate: None,
+    };
+    let row = |kind: u8, key: BytesSpec, cdate: u8, mdate: u8| {
+        Step::Row(RowSpec { kind, signer: 1, key, sig: BytesSpec::Good, room: RoomSel::Shared, ent: EntSel::Item, json: 0, cdate, mdate, target: None, label: 0, binary: None })
+    };
+    let m = "{ Person { name: String, age: Integer nullable, data: Json nullable, pet: Pet nullable, friends: [Person] } Pet { name: String } }";
+    let cases: Vec<(&str, Case)> = vec![
+        ("empty-verifying-key-verify-hash", Case::Instance(vec![Step::VerifyHash { sig: BytesSpec::Good, key: BytesSpec::Empty }])),
+        ("empty-verifying-key-node-row", Case::Instance(vec![row(0, BytesSpec::Empty, 0, 0)])),
+        ("json-field-null-variable", mut_json(Val::Var(PKind::Null))),
+        ("json-field-null-literal", mut_json(Val::Lit(PKind::Null))),
+        ("wire-date-out-of-range", Case::Instance(vec![q(7, 6)])),
+        ("wire-date-next-day-overflow", Case::Instance(vec![q(9, 8)])),
+        ("signed-deletion-record-date-out-of-range", Case::Instance(vec![row(2, BytesSpec::Good, 6, 0)])),
+        ("signed-deletion-record-next-day-overflow", Case::Instance(vec![row(2, BytesSpec::Good, 8, 0)])),
+        ("reserved-word-as-alias", art(&format!("{}\0query {{ order : Person {{ name }} }}", m))),
+        ("reserved-word-as-field-name", art("{ Person { name: String, group: Person nullable } }\0query { Person { name group { name } } }")),
+        ("digit-first-alias", art(&format!("{}\0query {{ 1 : Person {{ name }} }}", m))),
+        ("alias-made-of-dots", art(&format!("{}\0query {{ . : Person {{ name }} }}", m))),
+        ("skip-without-first", art(&format!("{}\0query {{ Person (skip 1) {{ name }} }}", m))),
+        ("json-field-default", art("{ Person { name: String, data: Json default \"{}\" } }\0query { Person { data } }")),
+        ("non-finite-float-literal", art("{ Person { w: Float nullable } }\0query { Person (w > 1.0e999) { w } }")),
+        ("quote-in-string-default", art("{ Person { name: String default \"it's\" } }\0query { Person (name = \"a\") { name } }")),
+        ("filter-on-system-reference", art(&format!("{}\0query {{ Person (sys_peer = null) {{ name }} }}", m))),
+        ("literal-filter-then-json-filter", art(&format!("{}\0query {{ Person (age = 1, data->$.a = 2) {{ name }} }}", m))),
+        ("system-column-in-sub-entity-order", art(&format!("{}\0query {{ Person {{ name friends(order_by(cdate asc)) {{ name }} }} }}", m))),
+        ("aggregate-on-binary-system-field", art(&format!("{}\0query {{ Person {{ m : max(verifying_key) }} }}", m))),
+        ("reference-filter-in-aggregate-query", art(&format!("{}\0query {{ Person (pet = null) {{ c : count() }} }}", m))),
+        ("five-required-sub-entities", Case::Bomb(BombCase { target: 1, shape: 0, depth: 5 })),
+        ("twelve-nullable-sub-entities", Case::Bomb(BombCase { target: 1, shape: 3, depth: 10 })),
+        ("thousand-filters", Case::Bomb(BombCase { target: 1, shape: 1, depth: 1000 })),
+        ("exponential-sql-20-levels", Case::Bomb(BombCase { target: 1, shape: 0, depth: 20 })),
+        ("query-nesting-stack-overflow", Case::Bomb(BombCase { target: 1, shape: 3, depth: 900 })),
+        ("mutation-reference-nesting-stack-overflow", Case::Bomb(BombCase { target: 2, shape: 0, depth: 900 })),
+        ("mutation-array-nesting-stack-overflow", Case::Bomb(BombCase { target: 2, shape: 1, depth: 1000 })),
+    ];
+    let ctx = RunCtx { tier: Tier::Quick, replay: true, scratch: std::path::PathBuf::from("/dev/shm/dv/c14replays"), case_index: 0, known: vec![] };
+    std::fs::create_dir_all(&ctx.scratch).unwrap();
+    std::fs::create_dir_all(dir).unwrap();
+    for (name, case) in cases {
+        let out = C14::run(&case, &ctx);
+        let (sig, detail) = match out.violations.first() {
+            Some(v) => (v.signature.clone(), v.detail.clone()),
+            None => ("NONE".to_string(), format!("labels {:?}", out.labels)),
+        };
+        let all: Vec<&String> = out.violations.iter().map(|v| &v.signature).collect();
+        println!("{:45} {:?}", name, all);
+        let file = serde_json::json!({ "property": "C14", "signature": sig, "detail": detail, "seed": 0, "case": case });
+        std::fs::write(format!("{}/{}.json", dir, name), serde_json::to_string_pretty(&file).unwrap()).unwrap();
+    }
+    let _ = std::fs::remove_dir_all(&ctx.scratch);
+}
+
 fn main() {
+    if let Ok(dir) = std::env::var("C14_WRITE_REPLAYS") {
+        write_replays(&dir);
+        return;
+    }
     if std::env::var("C14_BOMB").is_ok() {
         bomb_child();
+    }
+    if let Ok(dir) = std::env::var("C14_WRITE_WIRE_SEEDS") {
+        write_wire_seeds(&dir);
+        return;
     }
     main_for::<C14>()
 }
